@@ -54,6 +54,8 @@ module Pos :
 
   val coq_lxor : positive -> positive -> coq_N
 
+  val shiftl : positive -> coq_N -> positive
+
   val iter_op : ('a1 -> 'a1 -> 'a1) -> positive -> 'a1 -> 'a1
 
   val to_nat : positive -> nat
